@@ -102,8 +102,9 @@ package tan
 //@ modifies *w
 
 //@ func (w *writer) writeRecord [C10 C04]
-//@ modifies *w, gWriteFailed
+//@ modifies *w, gWriteFailed, gDataSynced
 //@ ghostset gWriteFailed := old(gWriteFailed) || result1 != nil
+//@ ghostset gDataSynced := false
 //@ ensures result1 == nil ==> w.err == nil
 //@ ensures old(w.err) != nil ==> result1 != nil
 
@@ -117,17 +118,22 @@ package tan
 // fsynced since; gDirHandles: the file handles that are open directories
 //@ ghost var gDirDirty bool
 //@ ghost var gDirHandles set
+// gDataSynced: the file being written has been fsynced and nothing was written to it since
+//@ ghost var gDataSynced bool
 //@ extern github.com/lni/vfs (f File) Sync
 //@ ghostset gWriteFailed := old(gWriteFailed) || result != nil
 //@ ghostset gDirDirty := old(gDirDirty) && !(gDirHandles[obj(f)] && result == nil)
+//@ ghostset gDataSynced := old(gDataSynced) || (!gDirHandles[obj(f)] && result == nil)
 //@ extern github.com/lni/vfs (f File) Close
 //@ ghostset gWriteFailed := old(gWriteFailed) || result != nil
 //@ extern github.com/lni/vfs (fs FS) Create
 //@ ensures result1 == nil ==> result0 != nil && !gDirHandles[obj(result0)]
 //@ ghostset gWriteFailed := old(gWriteFailed) || result1 != nil
 //@ ghostset gDirDirty := true
+//@ ghostset gDataSynced := false
 //@ extern github.com/lni/vfs (fs FS) Rename
 //@ requires !gWriteFailed && !gReadFailed
+//@ requires gDataSynced
 //@ ghostset gDirDirty := true
 //@ extern github.com/lni/vfs (fs FS) RemoveAll
 //@ ghostset gWriteFailed := old(gWriteFailed) || result != nil
@@ -142,6 +148,7 @@ package tan
 //@ func (w *writer) close [C10]
 //@ trusted flushes the last block; reports the writer's error
 //@ ghostset gWriteFailed := old(gWriteFailed) || result != nil
+//@ ghostset gDataSynced := false
 //@ func (w *writer) next [C10]
 //@ trusted starts a new record
 //@ ghostset gWriteFailed := old(gWriteFailed) || result1 != nil
@@ -164,14 +171,14 @@ package tan
 //@ noframe
 //@ nobounds
 //@ requires !gWriteFailed && !gReadFailed && !gDirDirty && gDirHandles[obj(d.dataDir)]
-//@ modifies gWriteFailed, gReadFailed, gDirDirty
+//@ modifies gWriteFailed, gReadFailed, gDirDirty, gDataSynced
 //@ ensures err == nil ==> !gDirDirty
 
 //@ func saveBootstrap [C10]
 //@ noframe
 //@ nobounds
 //@ requires !gWriteFailed && !gReadFailed && !gDirDirty && gDirHandles[obj(dataDir)]
-//@ modifies gWriteFailed, gDirDirty
+//@ modifies gWriteFailed, gDirDirty, gDataSynced
 //@ ensures err == nil ==> !gDirDirty
 
 //@ func removeBootstrap [C10]
@@ -188,21 +195,21 @@ package tan
 //@ noframe
 //@ nobounds
 //@ requires !gWriteFailed && !gReadFailed
-//@ modifies gWriteFailed, gDirDirty
+//@ modifies gWriteFailed, gDirDirty, gDataSynced
 
 // a new MANIFEST becomes current only together with a directory sync
 //@ func (vs *versionSet) create [C10]
 //@ noframe
 //@ nobounds
 //@ requires !gWriteFailed && !gReadFailed && !gDirDirty && gDirHandles[obj(dir)]
-//@ modifies gWriteFailed, gDirDirty
+//@ modifies gWriteFailed, gDirDirty, gDataSynced
 //@ ensures result == nil ==> !gDirDirty
 
 //@ func (vs *versionSet) logAndApply [C10]
 //@ noframe
 //@ nobounds
 //@ requires !gWriteFailed && !gReadFailed && !gDirDirty && gDirHandles[obj(dir)] && vs.writing
-//@ modifies gWriteFailed, gDirDirty
+//@ modifies gWriteFailed, gDirDirty, gDataSynced
 //@ ensures result == nil ==> !gDirDirty
 
 //@ func (vs *versionSet) init [C10]
